@@ -440,10 +440,20 @@ def run_minc_case(ctx, case):
         kw['incon'] = inc0
     for o in opts:
         ctx.see('minc_option', o)
+    # the selection: names, the grid's own block objects, or the equally named block objects of a copy of the grid made
+    # before (a selection kept from an earlier read of the same model: blocks are selected BY NAME, whatever object carries it)
+    blocks_arg = case['blocks']
+    if case['blocks'] and len(vf) % 2 == 0:
+        if len(vf) == 4:
+            import copy as _copy
+            twin = _copy.deepcopy(grid)
+            blocks_arg = [twin.block[n] for n in case['blocks']]
+            ctx.count('minc_selections_given_as_blocks_of_a_copy')
+        else:
+            blocks_arg = [grid.block[n] for n in case['blocks']]
     with ctx.guard(case, where='minc') as g:
         idx = grid.minc(list(vf), spacing=case['spacing'] if len(case['spacing']) > 1 else case['spacing'][0],
-                        num_fracture_planes=case['num_fracture_planes'], **kw,
-                        blocks=[grid.block[n] for n in case['blocks']] if (case['blocks'] and len(vf) % 2 == 0) else case['blocks'])   # names, or the blocks themselves
+                        num_fracture_planes=case['num_fracture_planes'], **kw, blocks=blocks_arg)
     if g.raised is not None:
         return
     ctx.evaluated()
